@@ -36,4 +36,13 @@ META = {
         "technique": "Coq proof (nat arithmetic, induction over runs, support lemmas for the probabilistic programs) + whole-call raw-tape replay",
         "design_ref": "DESIGN.md §3 C12",
     },
+    "C17": {
+        "text": "Coq theorems for every step function, fold, T, sampling period and swap period (no bounds): the measuring loop folds exactly the states after steps "
+                "f, 2f, ... (floor(T/f) of them, in order) and sums their operator counts; the chunked tempering driver is trace-equivalent to 'T single steps, swap phase after every s-th, "
+                "sample after every f-th'; its energy accounting equals the per-step average for every chunking. The loops are tied to qmc_stepper.rs / tempering_container.rs by running the real "
+                "helpers (timesteps_measure/_sample/_sample_iter/_sample_iter_zip, serial and rayon drivers) on a scripted stepper and comparing fold calls, sampled states, swap times, RNG words and energies.",
+        "note": "Trusted: Coq kernel + vm_compute; Model/Stepper.v and Model/Tempering.v transcriptions (validated by the correspondence); energies compared to 2^-30 because the code averages in f64.",
+        "technique": "Coq proof (induction on steps/fuel, div/mod arithmetic, field on Q) + scripted-stepper correspondence incl. raw-tape replay of swap phases",
+        "design_ref": "DESIGN.md §3 C17",
+    },
 }
